@@ -20,32 +20,37 @@ SHAPES = {
     'two': [['a'], ['b']],
     'nest': [['a'], ['a', 'a1']],
     'nest+': [['a'], ['a', 'a1'], ['b']],
+    # a tenant with two allocations of (symbolically) different rank
+    'tenant': [['t'], ['t', 'x'], ['t', 'y']],
 }
 ASSIGN = {
     'one': [(0, 0, 0)],
     'two': [(0, 0, 1), (0, 1, 0), (1, 0, 0)],
     'nest': [(0, 0, 1), (0, 1, 1), (1, 0, 0), (0, 1, 0)],
     'nest+': [(0, 1, 2), (1, 0, 2), (0, 0, 1), (2, 1, 1)],
+    'tenant': [(1, 2, 2), (2, 1, 1), (1, 2, 0)],
 }
 RES = {
     'one': [(0,), (2,), (5,)],
     'two': [(2, 5), (0, 5), (5, 5)],
     'nest': [(2, 5), (5, 2), (0, 5)],
     'nest+': [(2, 5, 2), (5, 0, 5)],
+    'tenant': [(0, 2, 2), (2, 0, 5)],
 }
 MU = {
     'one': [(None,), (1,), (1.5,)],
     'two': [(None, None), (1, None), (1.5, 2)],
     'nest': [(None, None), (1, None), (2, 1)],
     'nest+': [(None, None, None), (1, 2, None)],
+    'tenant': [(None, None, None)],
 }
 PLACED = [(False, False, False), (True, False, False), (False, True, True)]
 
 
 def subharnesses(tier):
     subs = []
-    shapes = ['one', 'two', 'nest'] if tier == 'quick' else \
-        ['one', 'two', 'nest', 'nest+']
+    shapes = ['one', 'two', 'nest', 'tenant'] if tier == 'quick' else \
+        ['one', 'two', 'nest', 'tenant', 'nest+']
     Ds = [1] if tier == 'quick' else [1, 2]
     for D in Ds:
         for sh in (shapes if D == 1 else shapes[:2]):
